@@ -58,10 +58,22 @@ SeqScript(name) ==
       [] name = "tbud3"  -> <<Op("OP_2DUP"), Op("OP_CHECKSIGVERIFY"), Op("OP_2DUP"), Op("OP_CHECKSIGVERIFY"),
                               Op("OP_2DUP"), Op("OP_CHECKSIGVERIFY"), Op("OP_2DROP"), OpN(1)>>
       [] name = "tnops"  -> [i \in 1..250 |-> Op("OP_NOP")] \o <<OpN(1)>>
+      \* k counted operations, then OP_1 (the 201 limit is per script)
+      [] name = "ops200" -> [i \in 1..200 |-> Op("OP_NOP")] \o <<OpN(1)>>
+      [] name = "ops201" -> [i \in 1..201 |-> Op("OP_NOP")] \o <<OpN(1)>>
+      [] name = "ops202" -> [i \in 1..202 |-> Op("OP_NOP")] \o <<OpN(1)>>
+      \* 197 / 198 + CHECKMULTISIG + its 3 keys = 201 / 202 (0 of 3 succeeds)
+      [] name = "opsms201" -> [i \in 1..197 |-> Op("OP_NOP")] \o <<Op("OP_0"), Op("OP_0"), Push(K1c), Push(K2c), Push(K3c), OpN(3), Op("OP_CHECKMULTISIG")>>
+      [] name = "opsms202" -> [i \in 1..198 |-> Op("OP_NOP")] \o <<Op("OP_0"), Op("OP_0"), Push(K1c), Push(K2c), Push(K3c), OpN(3), Op("OP_CHECKMULTISIG")>>
+      [] name = "wsh-ops200" -> <<Op("OP_0"), Push(HashOf("sha256", ScrElem("ops200", ScriptLen(SeqScript("ops200")))))>>
+      [] name = "wsh-ops201" -> <<Op("OP_0"), Push(HashOf("sha256", ScrElem("ops201", ScriptLen(SeqScript("ops201")))))>>
+      [] name = "wsh-ops202" -> <<Op("OP_0"), Push(HashOf("sha256", ScrElem("ops202", ScriptLen(SeqScript("ops202")))))>>
+      [] name = "wsh-opsms201" -> <<Op("OP_0"), Push(HashOf("sha256", ScrElem("opsms201", ScriptLen(SeqScript("opsms201")))))>>
 
 ScriptNames == {"ms12", "ms23", "pk1", "pk1u", "true", "false", "empty", "two", "trunc", "if", "nop1", "csep", "wpkh1", "wpkh1u",
                 "wsh-pk1", "w0-25", "w2-32", "v1tap", "anchor", "tpk1", "tadd", "tsucc", "tsucc-trunc", "ttrunc", "tmulti", "tcsep",
-                "tbud1", "tbud2", "tbud3", "tnops"}
+                "tbud1", "tbud2", "tbud3", "tnops", "ops200", "ops201", "ops202", "opsms201", "opsms202",
+                "wsh-ops200", "wsh-ops201", "wsh-ops202", "wsh-opsms201"}
 \* the binder reads the scripts from TLC's output
 ASSUME PrintT(<<"SCRIPTS", [n \in ScriptNames |-> SeqScript(n)]>>)
 
@@ -111,6 +123,28 @@ Scenarios == {
     Sc("if-straddles", <<OpN(1), Op("OP_IF")>>, <<OpN(1), Op("OP_ENDIF")>>, <<>>, "pk"),
     Sc("sig-csep", Pushes(<<SigElem("K1", 1, 0, 0, 3), S0("K1")>>), SeqScript("csep"), <<>>, "pk"),
     Sc("sig-csep-swapped", Pushes(<<S0("K1"), SigElem("K1", 1, 0, 0, 3)>>), SeqScript("csep"), <<>>, "pk"),
+    \* --- the 201-operation limit is counted per script: bare, P2SH, P2WSH, P2SH-P2WSH (tapscript: no limit)
+    Sc("ops-bare-200", <<>>, SeqScript("ops200"), <<>>, "pk"),
+    Sc("ops-bare-201", <<>>, SeqScript("ops201"), <<>>, "pk"),
+    Sc("ops-bare-202", <<>>, SeqScript("ops202"), <<>>, "pk"),
+    Sc("ops-bare-after-sig-ops", <<OpN(1), Op("OP_NOP"), Op("OP_NOP"), Op("OP_DROP")>>, SeqScript("ops201"), <<>>, "pk"),
+    Sc("ops-p2sh-200", Pushes(<<Scr("ops200")>>), P2SHof("ops200"), <<>>, "pk"),
+    Sc("ops-p2sh-201", Pushes(<<Scr("ops201")>>), P2SHof("ops201"), <<>>, "pk"),
+    Sc("ops-p2sh-202", Pushes(<<Scr("ops202")>>), P2SHof("ops202"), <<>>, "pk"),
+    Sc("ops-p2sh-multisig-201", Pushes(<<Scr("opsms201")>>), P2SHof("opsms201"), <<>>, "pk"),
+    Sc("ops-p2sh-multisig-202", Pushes(<<Scr("opsms202")>>), P2SHof("opsms202"), <<>>, "pk"),
+    Sc("ops-p2wsh-200", <<>>, P2WSHof("ops200"), <<Scr("ops200")>>, "pk"),
+    Sc("ops-p2wsh-201", <<>>, P2WSHof("ops201"), <<Scr("ops201")>>, "pk"),
+    Sc("ops-p2wsh-202", <<>>, P2WSHof("ops202"), <<Scr("ops202")>>, "pk"),
+    Sc("ops-p2wsh-multisig-201", <<>>, P2WSHof("opsms201"), <<Scr("opsms201")>>, "pk"),
+    Sc("ops-p2wsh-multisig-202", <<>>, P2WSHof("opsms202"), <<Scr("opsms202")>>, "pk"),
+    Sc("ops-p2sh-p2wsh-200", <<Push(Scr("wsh-ops200"))>>, P2SHof("wsh-ops200"), <<Scr("ops200")>>, "pk"),
+    Sc("ops-p2sh-p2wsh-201", <<Push(Scr("wsh-ops201"))>>, P2SHof("wsh-ops201"), <<Scr("ops201")>>, "pk"),
+    Sc("ops-p2sh-p2wsh-202", <<Push(Scr("wsh-ops202"))>>, P2SHof("wsh-ops202"), <<Scr("ops202")>>, "pk"),
+    Sc("ops-p2sh-p2wsh-multisig-201", <<Push(Scr("wsh-opsms201"))>>, P2SHof("wsh-opsms201"), <<Scr("opsms201")>>, "pk"),
+    Sc("ops-tap-200", <<>>, P2TR, <<Scr("ops200"), GoodCtrl("ops200")>>, "pk"),
+    Sc("ops-tap-201", <<>>, P2TR, <<Scr("ops201"), GoodCtrl("ops201")>>, "pk"),
+    Sc("ops-tap-202", <<>>, P2TR, <<Scr("ops202"), GoodCtrl("ops202")>>, "pk"),
     \* --- P2SH
     Sc("p2sh-multisig", Pushes(<<E0, S0("K1"), Scr("ms12")>>), P2SHof("ms12"), <<>>, "ms12"),
     Sc("p2sh-multisig23", Pushes(<<E0, S0("K1"), S0("K3"), Scr("ms23")>>), P2SHof("ms23"), <<>>, "ms23"),
